@@ -4,7 +4,7 @@
    sumor to native OCaml types; andb/orb inlined).  N, positive, nat, Z stay inductive. *)
 Require Extraction.
 Require Import ExtrOcamlBasic.
-From Via Require Import M_Char M_Encode M_HashMap M_Router M_Auth.
+From Via Require Import M_Char M_Encode M_HashMap M_Router M_Auth M_Parse M_Receive.
 Set Extraction Optimize.
 Extraction "model.ml"
   M_Char.isupper M_Char.isalpha M_Char.isdigit M_Char.isxdigit M_Char.isblank M_Char.isspace
@@ -19,4 +19,6 @@ Extraction "model.ml"
   M_HashMap.hm_run M_HashMap.hm_empty_map M_HashMap.id_hash
   M_Router.split M_Router.uri_path M_Router.get_route_parameters M_Router.handle_request
   M_Router.build_table M_Router.dispatch
-  M_Auth.b64_encode M_Auth.b64_decode M_Auth.authenticate_route.
+  M_Auth.b64_encode M_Auth.b64_decode M_Auth.authenticate_route
+  M_Parse.rl_st_index M_Parse.sl_st_index M_Parse.fl_st_index M_Parse.ck_st_index
+  M_Receive.feed M_Receive.rv_init M_Receive.cfeed M_Receive.cv_init M_Receive.receive M_Receive.creceive.
